@@ -81,6 +81,56 @@ _UNREG = {'U1': _U1, 'U2': _U2}
 with pg.apply_wrappers([_W1Wrapper, _W2Wrapper]):
     pass
 
+# the hyper primitive every observation creates, and two DynamicEvaluationContexts
+# (per-thread and process-wide) that have collected it: their apply() is one more
+# scoped manager (it replays a decision for the primitives created inside)
+_PROBE_CANDIDATES = [110, 120, 130]
+
+
+def _probe_hyper():
+    return pg.oneof(list(_PROBE_CANDIDATES), name='c17_probe')
+
+
+_APPLY_CTX_POOL = {True: [], False: []}     # a context object serves one apply() at a time
+
+
+def _take_apply_ctx(per_thread):
+    pool = _APPLY_CTX_POOL[per_thread]
+    if pool:
+        return pool.pop()
+    ctx = pg.hyper.DynamicEvaluationContext(require_hyper_name=True, per_thread=per_thread)
+    with ctx.collect():
+        _probe_hyper()
+    # warm-up: whatever a context computes lazily on its first apply() must not make
+    # the first run that uses it different from later ones
+    _ = ctx.dna_spec
+    with ctx.apply([0]):
+        _probe_hyper()
+    return ctx
+
+
+class _ApplyScope:
+    """ctx.apply([k]) on a context of its own, handed back to the pool afterwards."""
+
+    def __init__(self, per_thread, k):
+        self.per_thread, self.k = per_thread, k
+
+    def __enter__(self):
+        self.ctx = _take_apply_ctx(self.per_thread)
+        self.cm = self.ctx.apply([self.k])
+        return self.cm.__enter__()
+
+    def __exit__(self, *a):
+        try:
+            return self.cm.__exit__(*a)
+        finally:
+            _APPLY_CTX_POOL[self.per_thread].append(self.ctx)
+
+
+_ALL_APPLY_CTX = {}
+for _pt in (True, False):       # collected outside any simulation
+    _ALL_APPLY_CTX[_pt] = [_take_apply_ctx(_pt) for _ in range(64)]
+
 BOOL_FLAGS = {
     'notify_on_change': (pg.notify_on_change, pg_flags.is_change_notification_enabled, True),
     'enable_type_check': (pg.enable_type_check, pg_flags.is_type_check_enabled, True),
@@ -95,8 +145,8 @@ OPT_FLAGS = {
 }
 PER_THREAD_MANAGERS = (list(BOOL_FLAGS) + list(OPT_FLAGS) + [
     'contextual_override', 'str_format', 'repr_format', 'view_options',
-    'coding_context', 'coding_permission', 'detour', 'dynamic_evaluate', 'timeit'])
-PROCESS_WIDE_MANAGERS = ['dynamic_evaluate_global', 'apply_wrappers', 'load_types']
+    'coding_context', 'coding_permission', 'detour', 'dynamic_evaluate', 'dyn_apply', 'timeit'])
+PROCESS_WIDE_MANAGERS = ['dynamic_evaluate_global', 'dyn_apply_global', 'apply_wrappers', 'load_types']
 
 PERMS = {
     'BASIC': pg.coding.CodePermission.BASIC,
@@ -150,6 +200,8 @@ def gen_args(rng, mgr):
         return [pairs]
     if mgr in ('dynamic_evaluate', 'dynamic_evaluate_global'):
         return [rng.choice([None, 1, 2, 3])]
+    if mgr in ('dyn_apply', 'dyn_apply_global'):
+        return [rng.randint(0, 2)]       # the decision DynamicEvaluationContext.apply() replays
     if mgr == 'timeit':
         return [rng.choice(['', 'a', 'b', 'c'])]
     if mgr == 'apply_wrappers':
@@ -196,8 +248,8 @@ def gen_case(streams: Streams, tier: str) -> dict:
         mgrs = list(pool)
         if t == 0:
             mgrs += pw
-        if 'dynamic_evaluate_global' in pw and t != 0:
-            mgrs = [m for m in mgrs if m != 'dynamic_evaluate'] or ['as_sealed']
+        if ('dynamic_evaluate_global' in pw or 'dyn_apply_global' in pw) and t != 0:
+            mgrs = [m for m in mgrs if m not in ('dynamic_evaluate', 'dyn_apply')] or ['as_sealed']
         if 'apply_wrappers' in pw and t != 0:
             pass
         programs.append(gen_program(ops, mgrs, ops.randint(4, 24 if tier == 'quick' else 40),
@@ -240,7 +292,7 @@ def deep_merge(a, b):
     return out
 
 
-def expected(frames, shared, is_t0, pw=()):
+def expected(frames, shared, is_t0, pw=(), pw_stable=False):
     """Observation predicted from this thread's frames (and, for the
     process-wide managers, the shared stack driven in event order)."""
     e = {}
@@ -316,14 +368,21 @@ def expected(frames, shared, is_t0, pw=()):
     e['detour_new'] = {n: cur.get(n, n) for n in CLASS_NAMES}
     if is_t0:
         e['wrapped_new'] = {n: cur.get(n, n) for n in sorted(_WRAPPED)}
-    dyn = 'hyper'
-    for m, a in frames:
-        if m in ('dynamic_evaluate', 'dynamic_evaluate_global'):
-            dyn = 'hyper' if a[0] is None else f'tag{a[0]}'
-    if is_t0 or 'dynamic_evaluate_global' not in pw:
-        # (a process-wide evaluator entered by thread 0 is visible everywhere
-        # by design; other threads then do not judge this key)
-        e['dynamic_evaluate'] = dyn
+    def _dyn(stack, dyn='hyper'):
+        for m, a in stack:
+            if m in ('dynamic_evaluate', 'dynamic_evaluate_global'):
+                dyn = 'hyper' if a[0] is None else f'tag{a[0]}'
+            elif m in ('dyn_apply', 'dyn_apply_global'):
+                dyn = f'cand{a[0]}'
+        return dyn
+    if is_t0 or not ({'dynamic_evaluate_global', 'dyn_apply_global'} & set(pw)):
+        e['dynamic_evaluate'] = _dyn(frames)
+    elif pw_stable:
+        # a process-wide evaluator entered by thread 0 is in force in every thread
+        # (documented as process-wide).  Judged from other threads only while thread 0
+        # is not inside the enter / exit of a process-wide manager and the
+        # observation cannot be pre-empted.
+        e['dynamic_evaluate'] = _dyn(shared)
     if is_t0:
         lt = {}
         for m, a in shared:
@@ -372,6 +431,10 @@ def make_cm(mgr, a, env):
         return pg.hyper.dynamic_evaluate(env.fns.get(a[0]), per_thread=True)
     if mgr == 'dynamic_evaluate_global':
         return pg.hyper.dynamic_evaluate(env.fns.get(a[0]), per_thread=False)
+    if mgr == 'dyn_apply':
+        return _ApplyScope(True, a[0])
+    if mgr == 'dyn_apply_global':
+        return _ApplyScope(False, a[0])
     if mgr == 'timeit':
         return pg.timeit(a[0])
     if mgr == 'apply_wrappers':
@@ -453,8 +516,9 @@ def observe(env, is_t0):
             except RecursionError:
                 o['wrapped_new'][n] = 'RecursionError'
     with pg.enable_type_check(True), pg.as_sealed(False), pg.allow_writable_accessors(True):
-        v = pg.oneof([0, 1])
-    o['dynamic_evaluate'] = v if isinstance(v, str) else 'hyper'
+        v = _probe_hyper()
+    o['dynamic_evaluate'] = v if isinstance(v, str) else (
+        f'cand{_PROBE_CANDIDATES.index(v)}' if v in _PROBE_CANDIDATES else 'hyper')
     if is_t0:
         with pg.JSONConvertible.load_types_for_deserialization() as reg:
             o['load_types'] = {k: True for k in sorted(reg)}
@@ -542,6 +606,14 @@ def _reset_process_wide_state():
     from pyglove.core.hyper import base as hyper_base
     from pyglove.core.utils import json_conversion
     hyper_base._global_dynamic_evaluate_fn = None
+    # every run starts with the same pool of (idle) apply contexts and an empty
+    # process-wide context stack, whatever an aborted earlier run left behind
+    from pyglove.core.hyper import dynamic_evaluation as _de
+    del _de._dynamic_evaluation_stack._global_stack[:]
+    for pt, ctxs in _ALL_APPLY_CTX.items():
+        for ctx in ctxs:
+            ctx._decision_getter = None
+        _APPLY_CTX_POOL[pt][:] = list(ctxs)
     try:
         json_conversion.JSONConvertible._TYPE_REGISTRY._ondemand_registry_stack.clear()
     except AttributeError:
@@ -558,6 +630,7 @@ def _run(case, sim, clock):
     # fresh classes per run re-expose first-use races of pg.detour
     classes = {n: type(n, (), {'__init__': lambda self: None}) for n in CLASS_NAMES}
     shared = []          # frames of process-wide managers, in event order
+    pw_busy = [0]        # >0 while thread 0 is inside the enter / exit of a process-wide manager
     helpers = []
 
     def fault(k, n=1):
@@ -586,6 +659,7 @@ def _run(case, sim, clock):
                     return          # nobody else ran since the last observation
                 if case.get('quiet_obs', True):
                     sim.quiet += 1
+                pw_busy_at_obs = pw_busy[0]
                 try:
                     obs = observe(env, is_t0)
                     last['switches'] = sim.switches
@@ -595,6 +669,15 @@ def _run(case, sim, clock):
                     if os.environ.get('VERIF_DEBUG'):
                         import traceback
                         traceback.print_exc()
+                    if not is_t0 and 'dyn_apply_global' in case.get('process_wide', ()) and \
+                            isinstance(e, ValueError) and 'under the `apply` context' in str(e):
+                        # thread 0 is entering / leaving a process-wide apply(): between
+                        # installing the evaluator and setting its decisions the library
+                        # raises in whatever thread creates a hyper primitive.  An effect
+                        # of a process-wide manager, which the property exempts.
+                        probes['pw_apply_transition_seen'] = \
+                            probes.get('pw_apply_transition_seen', 0) + 1
+                        return None
                     bad('C17.observe-raises', type(e).__name__,
                         f'{when}: observing the settings raised {type(e).__name__}: {e}; '
                         f'frames={frames}', ti, ei)
@@ -602,7 +685,8 @@ def _run(case, sim, clock):
                 finally:
                     if case.get('quiet_obs', True):
                         sim.quiet -= 1
-                exp = expected(frames, shared, is_t0, case.get('process_wide', ()))
+                exp = expected(frames, shared, is_t0, case.get('process_wide', ()),
+                               pw_stable=bool(case.get('quiet_obs', True)) and pw_busy_at_obs == 0)
                 for k, ev, ov in diff(exp, obs):
                     bad('C17.mismatch', f'{k}|{when}',
                         f'{when}: {k} observed {ov!r}, reference stack {frames} gives {ev!r}',
@@ -614,6 +698,15 @@ def _run(case, sim, clock):
             def do_exit(exc):
                 mgr, a, cm, node = live.pop()
                 frames.pop()
+                if mgr in PROCESS_WIDE_MANAGERS:
+                    pw_busy[0] += 1
+                try:
+                    _do_exit(exc, mgr, a, cm, node)
+                finally:
+                    if mgr in PROCESS_WIDE_MANAGERS:
+                        pw_busy[0] -= 1
+
+            def _do_exit(exc, mgr, a, cm, node):
                 if mgr in PROCESS_WIDE_MANAGERS and shared:
                     for i in range(len(shared) - 1, -1, -1):
                         if shared[i][0] == mgr:
@@ -639,21 +732,44 @@ def _run(case, sim, clock):
                     kind = e[0]
                     if kind == 'enter':
                         mgr, a = e[1], e[2]
-                        if mgr == 'dynamic_evaluate' and any(
-                                m == 'dynamic_evaluate_global' for m, _ in frames):
+                        if mgr in ('dyn_apply', 'dyn_apply_global') and any(
+                                (m == 'as_sealed' and a_[0] is True) or
+                                (m == 'allow_writable_accessors' and a_[0] is False) or
+                                (m == 'enable_type_check' and a_[0] is False) or
+                                (m == 'allow_partial' and a_[0] is False)
+                                for m, a_ in frames):
+                            continue           # apply() builds symbolic values on entry
+                        _PT, _PW = ('dynamic_evaluate', 'dyn_apply'), \
+                            ('dynamic_evaluate_global', 'dyn_apply_global')
+                        if mgr in _PT and any(m in _PW for m, _ in frames):
                             continue           # documented: cannot nest per-thread in process-wide
-                        if mgr == 'dynamic_evaluate_global' and any(
-                                m == 'dynamic_evaluate' for m, _ in frames):
+                        if mgr in _PT and not is_t0 and \
+                                set(_PW) & set(case.get('process_wide', ())):
+                            # the same restriction seen from another thread: while thread 0
+                            # may hold the process-wide evaluator, entering / leaving a
+                            # per-thread one trips the library's assertion (a precondition of
+                            # the manager, not a scoping failure)
+                            continue
+                        if mgr in _PW and any(m in _PT for m, _ in frames):
                             continue
                         cm = make_cm(mgr, a, env)
                         sim.log('enter', t=ti, m=mgr)
                         parent_node = next((n for m_, _, _, n in reversed(live)
                                             if m_ == 'timeit'), None)
                         try:
+                            if mgr in PROCESS_WIDE_MANAGERS:
+                                pw_busy[0] += 1
                             node = cm.__enter__()
+                            if mgr in ('dyn_apply', 'dyn_apply_global'):
+                                # apply() insists that its decision is used
+                                with pg.enable_type_check(True), pg.as_sealed(False), \
+                                        pg.allow_writable_accessors(True), pg.allow_partial(None):
+                                    _probe_hyper()
                         except sched.SimAbort:
                             raise
                         except Exception as ex:  # pylint: disable=broad-except
+                            if mgr in PROCESS_WIDE_MANAGERS:
+                                pw_busy[0] -= 1
                             if mgr == 'detour' and any(s == '<int>' for s, _ in a[0]) \
                                     and isinstance(ex, TypeError):
                                 # the entry failed as it must: nothing was entered, the
@@ -669,6 +785,7 @@ def _run(case, sim, clock):
                         live.append((mgr, a, cm, node if mgr == 'timeit' else None))
                         if mgr in PROCESS_WIDE_MANAGERS:
                             shared.append((mgr, a))
+                            pw_busy[0] -= 1
                         if mgr == 'timeit':
                             if parent_node is None:
                                 timing_roots.append(node)
@@ -735,8 +852,10 @@ def _run(case, sim, clock):
                 while live and not violations:
                     do_exit(None)
                     check('post-close', len(program))
+                final = None
                 if not violations and base is not None:
-                    final = observe(env, is_t0)
+                    final = check('final', len(program))
+                if not violations and base is not None and final is not None:
                     judged = expected([], shared, is_t0, case.get('process_wide', ()))
                     for k, bv, fv in diff({k: v for k, v in base.items() if k in judged},
                                           final):
